@@ -506,6 +506,173 @@ theorem adapt_noop (conv : Graph → Graph) (c : Ctx) (varNames : List String) (
     adaptInline conv c varNames g first imports target = .ok first := by
   unfold adaptInline; simp [h]
 
+/-! #### the decision of `adapt_inline`: which data it depends on -/
+
+theorem foldl_max_ge_init (vs : List Nat) (v : Nat) : v ≤ vs.foldl max v := by
+  induction vs generalizing v with
+  | nil => exact Nat.le_refl _
+  | cons w ws ih => exact Nat.le_trans (Nat.le_max_left v w) (ih (max v w))
+
+theorem foldl_max_ge_mem (vs : List Nat) (v w : Nat) (hw : w ∈ vs) : w ≤ vs.foldl max v := by
+  induction vs generalizing v with
+  | nil => cases hw
+  | cons u us ih =>
+    rcases List.mem_cons.mp hw with rfl | h
+    · exact Nat.le_trans (Nat.le_max_right v w) (foldl_max_ge_init us (max v w))
+    · exact ih (max v u) h
+
+theorem foldl_max_mem (vs : List Nat) (v : Nat) : vs.foldl max v = v ∨ vs.foldl max v ∈ vs := by
+  induction vs generalizing v with
+  | nil => exact Or.inl rfl
+  | cons u us ih =>
+    rcases ih (max v u) with h | h
+    · rcases Nat.le_total v u with hvu | huv
+      · right; rw [List.foldl_cons, h, Nat.max_eq_right hvu]; exact List.mem_cons_self ..
+      · left; rw [List.foldl_cons, h, Nat.max_eq_left huv]
+    · right; exact List.mem_cons_of_mem _ h
+
+/-- **`source_version_spec`**: the source version `adapt_inline` works with is THE maximum of the
+    default-domain imports of the inlined model - a member that bounds every member; in particular it
+    does not depend on the order of the imports or on where the other domains are listed. -/
+theorem source_version_spec (imports : List (String × Nat)) (v : Nat) :
+    sourceVersion imports = some v ↔
+      v ∈ defaultImports imports ∧ ∀ w ∈ defaultImports imports, w ≤ v := by
+  unfold sourceVersion
+  cases hd : defaultImports imports with
+  | nil => simp
+  | cons u us =>
+    constructor
+    · intro h
+      have hv : us.foldl max u = v := by simpa using h
+      subst hv
+      refine ⟨?_, fun w hw => ?_⟩
+      · rcases foldl_max_mem us u with h | h
+        · rw [h]; exact List.mem_cons_self ..
+        · exact List.mem_cons_of_mem _ h
+      · rcases List.mem_cons.mp hw with rfl | hw
+        · exact foldl_max_ge_init us w
+        · exact foldl_max_ge_mem us u w hw
+    · rintro ⟨hm, hb⟩
+      have h1 : us.foldl max u ≤ v := by
+        rcases foldl_max_mem us u with h | h
+        · rw [h]; exact hb u (List.mem_cons_self ..)
+        · exact hb _ (List.mem_cons_of_mem _ h)
+      have h2 : v ≤ us.foldl max u := by
+        rcases List.mem_cons.mp hm with rfl | hm
+        · exact foldl_max_ge_init us v
+        · exact foldl_max_ge_mem us u v hm
+      simp [Nat.le_antisymm h1 h2]
+
+/-- **`adapt_decision_spec`**: `adapt_inline` converts iff some emitted top-level node lies in the default
+    domain and the inlined model's source version exists and differs from the target - nothing else. -/
+theorem adapt_decision_spec (protoDomains : List String) (imports : List (String × Nat)) (target : Nat) :
+    needsConversionFull protoDomains imports target = true ↔
+      (∃ d ∈ protoDomains, d = "" ∨ d = "ai.onnx") ∧ ∃ v, sourceVersion imports = some v ∧ v ≠ target := by
+  unfold needsConversionFull needsConversion sourceVersion
+  cases defaultImports imports with
+  | nil => simp
+  | cons u us => simp
+
+/-- **`adapt_decision_operator_blind`**: the decision looks at the DOMAINS of the emitted top-level nodes
+    only. Two inlined models whose top-level nodes lie in the same domains - whatever their operators
+    are, changed between the two opsets or not, and whatever their bodies hold - are both converted
+    or both kept (the held-out change "skip the converter when no top-level operator changed" breaks
+    exactly this; the driver's `converts` is compared with the real call of the converter on every
+    correspondence case). -/
+theorem adapt_decision_operator_blind (conv : Graph → Graph) (c : Ctx) (varNames : List String) (g : Graph)
+    (first first' : List Node) (imports : List (String × Nat)) (target : Nat)
+    (hdom : first.map (fun n => n.op.domain) = first'.map (fun n => n.op.domain)) :
+    needsConversionFull (first.map fun n => n.op.domain) imports target
+      = needsConversionFull (first'.map fun n => n.op.domain) imports target ∧
+    (needsConversionFull (first.map fun n => n.op.domain) imports target = true →
+      adaptInline conv c varNames g first (defaultImports imports) target
+        = adaptInline conv c varNames g first' (defaultImports imports) target) := by
+  refine ⟨by rw [hdom], fun h => ?_⟩
+  have h' : needsConversion (first'.map fun n => n.op.domain) (defaultImports imports) target = true := by
+    rw [← hdom]; exact h
+  have h0 : needsConversion (first.map fun n => n.op.domain) (defaultImports imports) target = true := h
+  unfold adaptInline
+  rw [if_pos h0, if_pos h']
+
+/-- **`adapt_converts`**: on the raw data - some emitted top-level node in the default domain, the inlined
+    model's highest default-domain import `v` differs from the target - `adapt_inline` returns the
+    renaming, in the fresh scope, of the WHOLE converted model (bodies included: `conv` maps the nested
+    graph), never the nodes of the build; whatever the top-level operators are. -/
+theorem adapt_converts (conv : Graph → Graph) (c : Ctx) (varNames : List String) (g : Graph)
+    (first : List Node) (imports : List (String × Nat)) (target v : Nat)
+    (hdom : ∃ n ∈ first, n.op.domain = "" ∨ n.op.domain = "ai.onnx")
+    (hsrc : sourceVersion imports = some v) (hne : v ≠ target) :
+    adaptInline conv c varNames g first (defaultImports imports) target =
+      (match toOnnx (freshCtx c varNames) (conv g) with
+       | .ok em => .ok em.nodes
+       | .error e => .error e) := by
+  have h : needsConversionFull (first.map fun n => n.op.domain) imports target = true := by
+    rw [adapt_decision_spec]
+    obtain ⟨n, hn, hd⟩ := hdom
+    exact ⟨⟨n.op.domain, List.mem_map.mpr ⟨n, hn, rfl⟩, hd⟩, v, hsrc, hne⟩
+  have h0 : needsConversion (first.map fun n => n.op.domain) (defaultImports imports) target = true := h
+  unfold adaptInline
+  rw [if_pos h0]
+  cases toOnnx (freshCtx c varNames) (conv g) <;> rfl
+
+/-- **`adapt_keeps`**: the nodes of the build are returned unchanged exactly in the remaining cases - the
+    source version is the target, the model imports no default domain, or no emitted top-level node lies
+    in the default domain. -/
+theorem adapt_keeps (conv : Graph → Graph) (c : Ctx) (varNames : List String) (g : Graph)
+    (first : List Node) (imports : List (String × Nat)) (target : Nat)
+    (h : sourceVersion imports = some target ∨ sourceVersion imports = none ∨
+         ∀ n ∈ first, n.op.domain ≠ "" ∧ n.op.domain ≠ "ai.onnx") :
+    adaptInline conv c varNames g first (defaultImports imports) target = .ok first := by
+  have hf : needsConversionFull (first.map fun n => n.op.domain) imports target = false := by
+    cases hb : needsConversionFull (first.map fun n => n.op.domain) imports target with
+    | false => rfl
+    | true =>
+      exfalso
+      obtain ⟨⟨d, hd, hdd⟩, v, hv, hne⟩ := (adapt_decision_spec _ _ _).mp hb
+      rcases h with h | h | h
+      · rw [h] at hv; exact hne (Option.some.inj hv).symm
+      · rw [h] at hv; cases hv
+      · obtain ⟨n, hn, rfl⟩ := List.mem_map.mp hd
+        rcases hdd with e | e
+        · exact (h n hn).1 e
+        · exact (h n hn).2 e
+  exact adapt_noop conv c varNames g first (defaultImports imports) target hf
+
+/-- **`adapt_decision_ignores_other_domains`**: an import of another domain (ai.onnx.ml, a custom domain,
+    an import no node uses), listed anywhere among the imports and at any version, changes neither the
+    source version nor the decision. -/
+theorem adapt_decision_ignores_other_domains (pre post : List (String × Nat)) (d : String) (ver : Nat)
+    (hd : d ≠ "" ∧ d ≠ "ai.onnx") (protoDomains : List String) (target : Nat) :
+    sourceVersion (pre ++ (d, ver) :: post) = sourceVersion (pre ++ post) ∧
+    needsConversionFull protoDomains (pre ++ (d, ver) :: post) target
+      = needsConversionFull protoDomains (pre ++ post) target := by
+  have h : defaultImports (pre ++ (d, ver) :: post) = defaultImports (pre ++ post) := by
+    simp [defaultImports, hd.1, hd.2]
+  unfold sourceVersion needsConversionFull
+  rw [h]
+  exact ⟨rfl, rfl⟩
+
+/-- non-vacuity: opset 17 model whose only top-level node is an `If` (the same at 16..18), next to an
+    opset-18 operator: converted; an ai.onnx.ml import at version 18 listed first does not switch it off;
+    at target 17 it is kept -/
+example : needsConversionFull [""] [("", 17)] 18 = true ∧
+    needsConversionFull [""] [("ai.onnx.ml", 18), ("", 17)] 18 = true ∧
+    needsConversionFull ["", "com.microsoft"] [("com.microsoft", 1), ("", 17)] 17 = false ∧
+    needsConversionFull ["custom.dom"] [("custom.dom", 1), ("", 13)] 18 = false := by decide
+
+/-- **`generated_adapt_decision`** (tie G): the decision code of `adapt_inline`, re-extracted from
+    `_adapt.py` on this run, is expression by expression the text `needsConversionFull` transcribes -
+    whatever inputs the oracle generates, an additional guard / early return / version source breaks this. -/
+theorem generated_adapt_decision : Generated.InlineFacts.adaptShape = adaptShapeModelled := by
+  decide
+
+/-- **`generated_inline_members`** (tie G): the methods, properties, class-level attributes of `_Inline` and
+    every attribute write on the node object (in its methods and in `adapt_inline`), re-extracted on this
+    run, are exactly the ones the model accounts for: a new override, a cache on the node (the history
+    class: remembered conversions) or a class-level mutable attribute breaks this whatever is generated. -/
+theorem generated_inline_members : Generated.InlineFacts.inlineMembers = inlineMembersModelled := by
+  decide
+
 /-- `node.model` after `adapt_inline` is the object it was before, whether `to_onnx` raises or not
     (for the statement list extracted from `_adapt.adapt_inline` on this run; C12 relies on it) -/
 theorem adapt_restores_model {α : Type} (base target junk : α) (emitRaises : Bool) :
